@@ -160,6 +160,7 @@ func sortedKeys(m hist.Model) []hist.Key {
 type Case struct {
 	Pool     string         `json:"pool"`
 	Quick    bool           `json:"quick"`
+	Body     *c02.Case      `json:"body,omitempty"`
 	Path     []hist.Op      `json:"path,omitempty"`
 	Order    []hist.Key     `json:"order,omitempty"`
 	Versions map[string]int `json:"versions,omitempty"`
@@ -348,7 +349,62 @@ func runPool(c *mc.Ctx, r *mc.Result, name string, p *hist.Pool, maxLive, permMa
 	}
 }
 
+// compareBody: the router left by seed + one multi-operation write transaction (committed or
+// aborted) against the canonical router of the set that must be registered afterwards.
+func compareBody(p *hist.Pool, probes []Probe, bc c02.Case, force bool) string {
+	h, m := c02.RunBody(bc)
+	c0 := canonical(m, sortedKeys(m), nil)
+	if !force && hist.ShapeDigest(h) == hist.ShapeDigest(c0) {
+		return "" // same registered set and same tree dump: same behaviour (merging argument)
+	}
+	for prof := range profiles {
+		h, m := c02.RunBody(bc, profiles[prof]...)
+		c1 := canonical(m, sortedKeys(m), profiles[prof])
+		if d := diff(observe(h, probes), observe(c1, probes), probes); d != "" {
+			end := "Abort"
+			if bc.Commit {
+				end = "Commit"
+			}
+			return fmt.Sprintf("two routers holding %s route differently (profile %s): %s\n    history: %v ; Txn{%v} %s\n    history tree:\n%s    canonical tree:\n%s", m, profileName(prof), d, bc.Path, bc.Body, end, indent(fox.VerifShape(h)), indent(fox.VerifShape(c1)))
+		}
+	}
+	return ""
+}
+
+func runBodies(c *mc.Ctx, r *mc.Result, name string, p *hist.Pool, seedMax, bodyLen int) {
+	probes := probesFor(p)
+	var mu sync.Mutex
+	ns, na, stopped := c02.ForEachBody(c, name, p, seedMax, bodyLen, func(bc c02.Case) {
+		msg := compareBody(p, probes, bc, false)
+		mu.Lock()
+		r.Evaluations++
+		r.Transitions += int64(len(bc.Body))
+		r.TracesValidated++
+		r.DistinctNontrivial++
+		if msg != "" {
+			bcc := bc
+			r.Violate("histories", "history-dependent", msg, Case{Pool: name, Quick: c.Quick(), Body: &bcc})
+		}
+		mu.Unlock()
+	})
+	r.Bounds[fmt.Sprintf("bodies.%s.%d", name, bodyLen)] = fmt.Sprintf("%d seeds (subsets <=%d) x all bodies of %d operations over %d operations inside one write transaction x {Commit, Abort}: tree dump compared with the canonical router's, probes on any difference", ns, seedMax, bodyLen, na)
+	if stopped {
+		r.NotExhaustive = append(r.NotExhaustive, "bodies "+name+" stopped by the time guard")
+	}
+}
+
 func run(c *mc.Ctx, r *mc.Result) {
+	if c.Quick() {
+		runBodies(c, r, "prefixes", c02.PoolFor(true), 2, 2)
+		runBodies(c, r, "siblings", c02.SiblingPool(), 3, 2)
+		runBodies(c, r, "nested", c02.NestPool(), 2, 2)
+	} else {
+		runBodies(c, r, "prefixes", c02.PoolFor(true), 3, 2)
+		runBodies(c, r, "siblings", c02.SiblingPool(), 4, 2)
+		runBodies(c, r, "nested", c02.NestPool(), 3, 2)
+		runBodies(c, r, "nested", c02.NestPool(), 2, 3)
+		runBodies(c, r, "siblings", c02.SiblingPool(), 2, 3)
+	}
 	if c.Quick() {
 		runPool(c, r, "prefixes", c02.PoolFor(true), 2, 3, 40000)
 		runPool(c, r, "siblings", c02.SiblingPool(), 4, 4, 8000)
@@ -369,6 +425,9 @@ func replay(c *mc.Ctx, raw json.RawMessage) string {
 	}
 	p := poolByName(cs.Pool, cs.Quick)
 	probes := probesFor(p)
+	if cs.Body != nil {
+		return compareBody(p, probes, *cs.Body, true)
+	}
 	if cs.Path != nil {
 		return compareHistory(p, probes, cs.Path, cs.Profile)
 	}
